@@ -312,7 +312,7 @@ func (g *Gen) zeroTerm(t types.Type) string {
 		case tt.Info()&types.IsBoolean != 0:
 			return "false"
 		case tt.Info()&types.IsString != 0:
-			return "emptyseq"
+			return "(as seq.empty (Seq Int))"
 		case tt.Kind() == types.UnsafePointer:
 			return "(mkloc 0 pnil)"
 		default:
